@@ -160,6 +160,10 @@ func genC18(seed int64, tier string) []caseOut {
 		rm := &protocol.ResolutionModel{Doc: toDoc(doc), CreatedTime: uint64(r.Int63n(4102444800)), UpdatedTime: uint64(r.Int63n(4102444800)) * uint64(r.Intn(2)),
 			UpdateCommitment: []string{"", "EiUpd"}[r.Intn(2)], RecoveryCommitment: []string{"", "EiRec"}[r.Intn(2)], Deactivated: r.Intn(4) == 0,
 			AnchorOrigin: origin, VersionID: []string{"", "v1"}[r.Intn(2)], PublishedOperations: mkOps(pubIn), UnpublishedOperations: mkOps(unpubIn)}
+		// the state also names where its create / recover was anchored: not the version of the state
+		if i%2 == 0 {
+			rm.CanonicalReference, rm.EquivalentReferences = "canonical-ref-of-create", []string{"equivalent-ref-1"}
+		}
 		if r.Intn(8) == 0 {
 			rm.CreatedTime = []uint64{0, 951782400, 1709164800, 1735689599, 4102444799}[r.Intn(5)] // leap days, year ends
 		}
@@ -226,9 +230,9 @@ func genC18(seed int64, tier string) []caseOut {
 			resJSON = m
 			implCoq = "(Some " + cJSON(normJSON(m)) + ")"
 		}
-		rmCoq := fmt.Sprintf("(Build_rmodel (Some %s) %s %s 0%%Z 0%%Z 0%%Z %s %s %s %s [] \"\" %s [] [])", cObj(normJSON(doc).(map[string]interface{})),
+		rmCoq := fmt.Sprintf("(Build_rmodel (Some %s) %s %s 0%%Z 0%%Z 0%%Z %s %s %s %s %s %s %s [] [])", cObj(normJSON(doc).(map[string]interface{})),
 			cZu(rm.CreatedTime), cZu(rm.UpdatedTime), cStr(rm.UpdateCommitment), cStr(rm.RecoveryCommitment), cBool(rm.Deactivated),
-			cJSON(normJSON(origin)), cStr(rm.VersionID))
+			cJSON(normJSON(origin)), cStrList(rm.EquivalentReferences), cStr(rm.CanonicalReference), cStr(rm.VersionID))
 		optsCoq := fmt.Sprintf("(Build_topts default_key_ctx %s %s %s %s)", cStrList(methodCtx), cBool(base), cBool(pubOps), cBool(unpubOps))
 		h := sha256.Sum256([]byte(fmt.Sprint(doc, base, pubIn, unpubIn, published)))
 		out = append(out, caseOut{
